@@ -33,7 +33,7 @@ let c07_ev (s : string) : Window.ev =
   | ["F"; nii; iw; noi; ow] ->
       Window.InFlow { Window.f_nii = opt_n nii; f_iw = n_of_string iw; f_noi = n_of_string noi;
                       f_ow = n_of_string ow; f_link = None }
-  | ["X"] -> Window.InXfer
+  | ["X"] | ["XD"] -> Window.InXfer     (* a transfer for a dropped endpoint is discarded - and counted all the same *)
   | _ -> failwith ("c07: bad event: " ^ s)
 
 let c07_frame (f : Window.sframe) : string =
@@ -42,8 +42,12 @@ let c07_frame (f : Window.sframe) : string =
       Printf.sprintf "T %s %s %s %s %s %s" (str_on did) (str_n x.Window.x_handle) (str_on x.Window.x_tag)
         (str_ob x.Window.x_settled) (str_b x.Window.x_more) (str_n x.Window.x_pay)
   | Window.FFlow fl ->
-      Printf.sprintf "W %s %s %s %s" (str_on fl.Window.f_nii) (str_n fl.Window.f_iw)
+      Printf.sprintf "W %s %s %s %s%s" (str_on fl.Window.f_nii) (str_n fl.Window.f_iw)
         (str_n fl.Window.f_noi) (str_n fl.Window.f_ow)
+        (match fl.Window.f_link with
+         | None -> ""
+         | Some l -> Printf.sprintf " L %s %s %s %s %s" (str_on l.Window.lf_dc) (str_on l.Window.lf_credit)
+                       (str_on l.Window.lf_avail) (str_b l.Window.lf_drain) (str_b l.Window.lf_echo))
 
 let c07_counters (s : Window.sess) : string =
   Printf.sprintf "noi=%s nii=%s riw=%s row=%s nfc=%s buf=%d dmap=%d"
@@ -60,11 +64,26 @@ let c07 (rest : string) : string =
                       (n_of_string bnoi) (n_of_string biw) (n_of_string bow) in
            (* step event by event so that counters can be printed after each *)
            let buf = Buffer.create 256 in
-           let _ = Stdlib.List.fold_left (fun s e ->
-             let (s', out) = Window.step s (c07_ev e) in
+           (* the sending link the flows with link state are about: initial delivery-count 0, no credit *)
+           let _ = Stdlib.List.fold_left (fun (s, ls) e ->
+             let (s', ls', out) = match words e with
+               | ["FL"; nii; iw; noi; ow; dc; cr; drain; echo] ->
+                   (* the link answers first (its model: SenderCredit), the session wraps the answer and
+                      releases what the re-opened window allows (Window.on_incoming_flow with that answer) *)
+                   let lf = { SenderCredit.lf_dc = opt_n dc; lf_credit = opt_n cr; lf_avail = None;
+                              lf_drain = (drain = "1"); lf_echo = (echo = "1") } in
+                   let (ls', reply) = SenderCredit.snd_on_incoming_flow ls lf in
+                   let wl (h : int) (l : SenderCredit.lflow) : Window.lflow =
+                     { Window.lf_handle = n_of_int h; lf_dc = l.SenderCredit.lf_dc; lf_credit = l.SenderCredit.lf_credit;
+                       lf_avail = l.SenderCredit.lf_avail; lf_drain = l.SenderCredit.lf_drain; lf_echo = l.SenderCredit.lf_echo } in
+                   let f = { Window.f_nii = opt_n nii; f_iw = n_of_string iw; f_noi = n_of_string noi;
+                             f_ow = n_of_string ow; f_link = Some (wl 9 lf) } in
+                   let (s', out) = Window.on_incoming_flow s f (match reply with Some r -> Some (wl 1 r) | None -> None) in
+                   (s', ls', out)
+               | _ -> let (s', out) = Window.step s (c07_ev e) in (s', ls, out) in
              Buffer.add_string buf (Stdlib.String.concat " , " (Stdlib.List.map c07_frame out));
              Buffer.add_string buf (" # " ^ c07_counters s' ^ " ; ");
-             s') s0 evs in
+             (s', ls')) (s0, SenderCredit.linit N0) evs in
            Buffer.contents buf
        | _ -> failwith "c07: bad header")
   | [] -> failwith "c07: empty"
@@ -804,6 +823,39 @@ let txcm (rest : string) : string =
           try_k 0 in
   if search (SendCancel.init N0) evs then observed else show default
 
+(* ---------- saslc: the SCRAM client (C19) ----------
+   case: `| <ev> <ev> ; <ev> ; ...` - the server's messages stage by stage; printed: what the client does per stage *)
+let saslc (rest : string) : string =
+  let script = (match Stdlib.String.index_opt rest '|' with
+    | Some i -> Stdlib.String.sub rest (i + 1) (Stdlib.String.length rest - i - 1) | None -> rest) in
+  let stages = Stdlib.List.map Stdlib.String.trim (Stdlib.String.split_on_char ';' script) in
+  let code = function
+    | "ok" -> ScramClient.KOk | "auth" -> ScramClient.KAuth | "sys" -> ScramClient.KSys | "sysperm" -> ScramClient.KSysPerm
+    | "systemp" -> ScramClient.KSysTemp | "other" -> ScramClient.KOther | c -> failwith ("saslc: bad code " ^ c) in
+  let data = function
+    | "good" -> ScramClient.DGood | "bad" -> ScramClient.DBad | "none" -> ScramClient.DNone | d -> failwith ("saslc: bad data " ^ d) in
+  let ev e = match Stdlib.String.split_on_char ':' e with
+    | ["hs"] -> ScramClient.VHdrSasl | ["hx"] -> ScramClient.VHdrOther
+    | ["m1"] -> ScramClient.VMechs true | ["m0"] -> ScramClient.VMechs false
+    | ["c1"] -> ScramClient.VChal true | ["c0"] -> ScramClient.VChal false
+    | ["o"; c; d] -> ScramClient.VOutcome (code c, data d)
+    | ["amqp"] -> ScramClient.VAmqp | ["g"] -> ScramClient.VGarbage | ["eof"] -> ScramClient.VEof
+    | _ -> failwith ("saslc: bad event " ^ e) in
+  let cname = function
+    | ScramClient.KOk -> "ok" | ScramClient.KAuth -> "auth" | ScramClient.KSys -> "sys" | ScramClient.KSysPerm -> "sysperm"
+    | ScramClient.KSysTemp -> "systemp" | ScramClient.KOther -> "other" in
+  let obs = function
+    | ScramClient.OInit -> "I" | ScramClient.OResp -> "R" | ScramClient.OAmqpHdr -> "H" | ScramClient.OOpen -> "O"
+    | ScramClient.ROk -> "ok"
+    | ScramClient.RErr ScramClient.EHeaderMismatch -> "err(hdr)" | ScramClient.RErr ScramClient.ENotImplemented -> "err(notimpl)"
+    | ScramClient.RErr ScramClient.EScram -> "err(scram)" | ScramClient.RErr (ScramClient.ESasl c) -> "err(sasl:" ^ cname c ^ ")"
+    | ScramClient.RErr ScramClient.EDecode -> "err(decode)" | ScramClient.RErr ScramClient.EIo -> "err(io)" in
+  let (_, outs) = Stdlib.List.fold_left (fun (s, acc) stage ->
+    let evs = words stage in
+    let (s', o) = Stdlib.List.fold_left (fun (s, o) e -> let (s1, o1) = ScramClient.cstep s (ev e) in (s1, o @ o1)) (s, []) evs in
+    (s', acc @ [Stdlib.String.concat "," (Stdlib.List.map obs o)])) (ScramClient.CWaitHdr, []) stages in
+  Stdlib.String.concat " ; " outs
+
 let dispatch (line : string) : string =
   match Stdlib.String.index_opt line ' ' with
   | None -> failwith "no model tag"
@@ -824,6 +876,7 @@ let dispatch (line : string) : string =
        | "txnm" -> txnm rest
        | "cutm" -> cutm rest
        | "saslm" -> saslm rest
+       | "saslc" -> saslc rest
        | "ssplit" -> ssplit rest
        | "lnk" -> c11_lnk rest
        | "chn" -> c11_chn rest
